@@ -459,6 +459,15 @@ impl Plane {
     // hit policy was not found in the top-left nor bottom-right corner if the plane
     Ok(HitPolicyPlacement::NotPresent)
   }
+  /// Returns the bottom-left hit policy placement when the bottom-left cell holds a hit policy marker.
+  pub fn recognize_bottom_left_hit_policy_placement(&self) -> Option<HitPolicyPlacement> {
+    if let Some(Cell::Region(_, _, text)) = self.content.last().and_then(|row| row.first()) {
+      if let Ok(hit_policy) = HitPolicy::try_from(text.as_str()) {
+        return Some(HitPolicyPlacement::BottomLeft(hit_policy));
+      }
+    }
+    None
+  }
   /// Recognizes the placement of the rule numbers in decision table.
   pub fn recognize_rule_numbers_placement(&self) -> Result<RuleNumbersPlacement> {
     match self.recognize_horizontal_rule_numbers() {
